@@ -170,6 +170,9 @@ class Run:
             "counters": self.counters,
             "known_findings_hit": jsonable(self.known_hits),
         }
+        if not self.evaluations:
+            # not measured separately by this driver (states/transitions/validated are the model-checking counts)
+            del cov["evaluations"]
         cov.update(jsonable(self.extra))
         ev = {
             "property_id": self.pid,
